@@ -240,6 +240,17 @@ func (g *c07Gen) document() string {
 	return strings.Join(lines, "\n") + "\n"
 }
 
+func stackedDiamonds(layers int) string {
+	var b strings.Builder
+	b.WriteString("l0a: &l0a {k0a: 0}\nl0b: &l0b {k0b: 0}\n")
+	for i := 1; i <= layers; i++ {
+		fmt.Fprintf(&b, "l%da: &l%da {<<: [*l%da, *l%db], k%da: %d}\n", i, i, i-1, i-1, i, i)
+		fmt.Fprintf(&b, "l%db: &l%db {<<: [*l%da, *l%db], k%db: %d}\n", i, i, i-1, i-1, i, i)
+	}
+	fmt.Fprintf(&b, "top: {<<: [*l%da, *l%db]}\n", layers, layers)
+	return b.String()
+}
+
 func classifyDecodeErr(err error) string {
 	if err == nil {
 		return "ok"
@@ -305,6 +316,13 @@ func runC07(c *ctx) error {
 	for i := 0; i < n; i++ {
 		g := &c07Gen{r: rng}
 		src := g.document()
+		if i%500 == 7 {
+			// stacked diamonds: every layer merges both mappings of the layer below, so the number of merge paths
+			// doubles per layer while the result stays linear in size; decoding must stay fast
+			src = stackedDiamonds(18 + rng.Intn(8))
+			g.multiMerge = true
+			c.res.Hist("doc.stacked-diamonds")
+		}
 		var root yaml.Node
 		if err := yaml.Unmarshal([]byte(src), &root); err != nil {
 			c.res.Hist("yaml.rejects")
